@@ -44,6 +44,8 @@ func runC01(c *Ctx) {
 	c.Rule("C01.R9", "HTTP/2 to HTTP/2: the outgoing URL is the received one (or a copy of it with single fields changed), never composed anew", 1)
 	defer c01H2URLFromReceived(c)
 	defer c01RawViewsConsistent(c)
+	c.Rule("C01.R11", "tars: the reader starts behind the length prefix; field 5 classifies a package in every int width", 4)
+	defer c01TarsFraming(c)
 	c.Rule("C01.R10", "cloning an HTTP/2 header map keeps every value of every name", 1)
 	defer c01CloneKeepsEveryValue(c)
 	c.NotDecided = append(c.NotDecided, "HTTP/1.1 and HTTP/2 method/URI/header/body fidelity (runtime string values)", "tars byte identity (always re-encoded through TarsGo)", "header.EncodeHeader/DecodeHeader inverse property (dependency)")
